@@ -148,7 +148,11 @@ func runC06(c *Ctx) {
 	c06Producers(c)
 	c06Threading(c)
 	c06Units(c)
-	c06Lines(c)
+	c06Lines(c, "C06-R6")
+	c.Rule("C06-R7", "the line table holds the text the YAML decoder saw", 3)
+	if rnl := c.MustFunc("C06-R7", "internal/parser.ContentReader.readNextLine"); rnl != nil {
+		linesPublishedBlanked(c, "C06-R7", rnl)
+	}
 }
 
 func c06Literal(c *Ctx, fi *FuncInfo, info *types.Info, cl *ast.CompositeLit) {
@@ -652,8 +656,26 @@ func c06Threading(c *Ctx) {
 						c.Check(mentionsNodeLine(info, a), "C06-R4", key, call.Pos(), "accumulated: "+exprStr(a),
 							"the line displacement is advanced by `"+exprStr(a)+"`, which is not the line of the embedding YAML node")
 					case 'C':
-						c.Check(!mentionsNodeLine(info, a) || containsAnyCall(a), "C06-R4", key, call.Pos(), "accumulated: "+exprStr(a),
-							"the column displacement is advanced by a node line (`"+exprStr(a)+"`)")
+						// the indentation of an embedded document is only visible in
+						// the source text: yaml.v3 records where the block indicator
+						// is, not where the content starts
+						readsText := false
+						if so := own['S']; so != nil {
+							ast.Inspect(a, func(m ast.Node) bool {
+								if id, ok := m.(*ast.Ident); ok && info.Uses[id] == so {
+									readsText = true
+								}
+								return true
+							})
+						}
+						switch {
+						case mentionsNodeLine(info, a) && !containsAnyCall(a):
+							c.Bad("C06-R4", key, call.Pos(), "the column displacement is advanced by a node line (`"+exprStr(a)+"`)")
+						case !readsText:
+							c.Bad("C06-R4", key, call.Pos(), "the column displacement is advanced by `"+exprStr(a)+"`, which does not read the source lines: the indentation of an embedded document cannot be derived from YAML node columns (they locate the block indicator, not its content), so documents indented differently from the assumed amount get shifted columns")
+						default:
+							c.Ok("C06-R4", key, call.Pos(), "accumulated from the source text: "+exprStr(a))
+						}
 					}
 				case r != 'S' && s.acc:
 					c.Ok("C06-R4", key, call.Pos(), "accumulated: "+exprStr(a))
@@ -780,9 +802,9 @@ func c06Units(c *Ctx) {
 
 // ---------------------------------------------------------------- R6
 
-func c06Lines(c *Ctx) {
+func c06Lines(c *Ctx, R string) {
 	p := c.P
-	fi := c.MustFunc("C06-R6", "internal/parser.parseRule")
+	fi := c.MustFunc(R, "internal/parser.parseRule")
 	if fi == nil {
 		return
 	}
@@ -802,7 +824,7 @@ func c06Lines(c *Ctx) {
 		return true
 	})
 	if acc == nil {
-		c.Undecided("C06-R6", "parseRule:line range accumulator", fi.Decl.Pos(), "no local of type diags.LineRange")
+		c.Undecided(R, "parseRule:line range accumulator", fi.Decl.Pos(), "no local of type diags.LineRange")
 		return
 	}
 	isAccField := func(e ast.Expr, f string) bool {
@@ -824,7 +846,7 @@ func c06Lines(c *Ctx) {
 		return true
 	})
 	if loop == nil {
-		c.Undecided("C06-R6", "parseRule:loop over parts", fi.Decl.Pos(), "no range over unpackNodes(node)")
+		c.Undecided(R, "parseRule:loop over parts", fi.Decl.Pos(), "no range over unpackNodes(node)")
 		return
 	}
 	partObj := types.Object(nil)
@@ -853,16 +875,45 @@ func c06Lines(c *Ctx) {
 			// if lines.First == 0 || part.Line+off < lines.First { lines.First = part.Line+off }
 			if len(s.Body.List) == 1 && s.Else == nil {
 				if as, ok := s.Body.List[0].(*ast.AssignStmt); ok && len(as.Lhs) == 1 && isAccField(as.Lhs[0], "First") && mentionsPartLine(as.Rhs[0]) {
-					foldFirst = true
+					// lowered only: the condition compares the part's line with the accumulator
+					lowers := false
+					for _, a := range implied(s.Cond, nil, true) {
+						_ = a
+					}
+					ast.Inspect(s.Cond, func(m ast.Node) bool {
+						if be, ok := m.(*ast.BinaryExpr); ok && (be.Op == token.LSS || be.Op == token.GTR) {
+							l, r := be.X, be.Y
+							if be.Op == token.GTR {
+								l, r = r, l
+							}
+							if mentionsPartLine(l) && isAccField(r, "First") {
+								lowers = true
+							}
+						}
+						return true
+					})
+					foldFirst = lowers
 					continue
 				}
 			}
 			stop = containsBranch(s)
 		case *ast.AssignStmt:
-			if len(s.Lhs) == 1 && isAccField(s.Lhs[0], "Last") && mentionsPartLine(s.Rhs[0]) {
+			// monotone folds only: Last = max(Last, …), First = min(First, …)
+			monotone := func(rhs ast.Expr, fn, field string) bool {
+				call, ok := ast.Unparen(rhs).(*ast.CallExpr)
+				if !ok || len(call.Args) != 2 {
+					return false
+				}
+				id, ok := call.Fun.(*ast.Ident)
+				if !ok || id.Name != fn {
+					return false
+				}
+				return (isAccField(call.Args[0], field) && mentionsPartLine(call.Args[1])) || (isAccField(call.Args[1], field) && mentionsPartLine(call.Args[0]))
+			}
+			if len(s.Lhs) == 1 && isAccField(s.Lhs[0], "Last") && monotone(s.Rhs[0], "max", "Last") {
 				foldLast = true
 			}
-			if len(s.Lhs) == 1 && isAccField(s.Lhs[0], "First") && mentionsPartLine(s.Rhs[0]) {
+			if len(s.Lhs) == 1 && isAccField(s.Lhs[0], "First") && monotone(s.Rhs[0], "min", "First") {
 				foldFirst = true
 			}
 		default:
@@ -872,10 +923,10 @@ func c06Lines(c *Ctx) {
 			break
 		}
 	}
-	c.Check(foldFirst, "C06-R6", "parseRule:First folds every part's line", loop.Pos(), "unconditional at the top of the loop",
-		"the first line of the rule is not lowered to the line of every key and value before the iteration can be left")
-	c.Check(foldLast, "C06-R6", "parseRule:Last folds every part's line", loop.Pos(), "unconditional at the top of the loop",
-		"the last line of the rule is not raised to the line of every key and value before the iteration can be left")
+	c.Check(foldFirst, R, "parseRule:First folds every part's line", loop.Pos(), "unconditional at the top of the loop",
+		"the first line of the rule is not lowered (min / `<` guarded) to the line of every key and value before the iteration can be left: nodes merged in from an earlier anchor (`<<: *a`) come out of order, the range can end up reversed and LineRange.Expand panics")
+	c.Check(foldLast, R, "parseRule:Last folds every part's line", loop.Pos(), "unconditional at the top of the loop",
+		"the last line of the rule is not raised (max) to the line of every key and value before the iteration can be left: nodes merged in from an earlier anchor (`<<: *a`) come out of order, the range can end up reversed and LineRange.Expand panics")
 	// (b) every position-bearing local assigned from a constructor is folded into Last right after
 	ctors := map[string]bool{"internal/parser.newYamlNode": true, "internal/parser.newPromQLExpr": true, "internal/parser.newYamlMap": true}
 	nParts := 0
@@ -938,12 +989,12 @@ func c06Lines(c *Ctx) {
 					caseName = exprStr(blk.List[0])
 				}
 			}
-			c.Check(folded, "C06-R6", "parseRule:case "+caseName+" folds the last line of its "+role, as.Pos(), "lines.Last raised",
+			c.Check(folded, R, "parseRule:case "+caseName+" folds the last line of its "+role, as.Pos(), "lines.Last raised",
 				"the field built for this key can span several lines but its last line is not folded into the rule's line range: the range no longer encloses the field")
 		}
 		return true
 	})
-	c.Check(nParts >= 7, "C06-R6", "parseRule:position-bearing fields found", loop.Pos(), itoa(nParts), "expected at least 7 fields built by newYamlNode/newPromQLExpr/newYamlMap, found "+itoa(nParts))
+	c.Check(nParts >= 7, R, "parseRule:position-bearing fields found", loop.Pos(), itoa(nParts), "expected at least 7 fields built by newYamlNode/newPromQLExpr/newYamlMap, found "+itoa(nParts))
 	// (c) every Rule literal in parseRule carries Lines from the accumulator (or
 	// the range handed back by a validator that received it)
 	nLit := 0
@@ -956,10 +1007,10 @@ func c06Lines(c *Ctx) {
 			ok = o == acc || (o != nil && typeQName(o.Type()) == qLR)
 		}
 		if !ok {
-			c.Bad("C06-R6", "parseRule:Rule literal #"+itoa(nLit)+" carries the accumulated lines", cl.Pos(), "Lines is `"+exprStr(l)+"`")
+			c.Bad(R, "parseRule:Rule literal #"+itoa(nLit)+" carries the accumulated lines", cl.Pos(), "Lines is `"+exprStr(l)+"`")
 		}
 	}
-	c.Check(nLit >= 10, "C06-R6", "parseRule:Rule literals carry Lines", fi.Decl.Pos(), itoa(nLit)+" literals", "expected at least 10 Rule literals, found "+itoa(nLit))
+	c.Check(nLit >= 10, R, "parseRule:Rule literals carry Lines", fi.Decl.Pos(), itoa(nLit)+" literals", "expected at least 10 Rule literals, found "+itoa(nLit))
 	_ = p
 }
 
